@@ -68,28 +68,41 @@ Definition zl_eqb (x y : Z * list Z) : bool := (fst x =? fst y) && lz_eqb (snd x
 Definition same_set_zl (a b : list (Z * list Z)) : bool :=
   forallb (fun x => existsb (zl_eqb x) b) a && forallb (fun x => existsb (zl_eqb x) a) b && (length a =? length b)%nat.
 
+(* a binary64 value m * 2^e as an exact rational (keeps the case files small) *)
+Definition qf (m e : Z) : Q :=
+  if (0 <=? e)%Z then inject_Z (m * 2 ^ e) else Qmake m (Z.to_pos (2 ^ (- e))).
+
+(* math.pi as the exact rational value of the binary64 constant *)
+Definition pi64 : Q := qf 7074237752028440 (-51).
+
 Record det_obs := mkDO {
   do_opts : fopts;
   do_eps : Q;                         (* tolerance band on dot products: 0 when binary64 is exact on the case *)
   do_heps : Q;                        (* tolerance band on angle sums / pi *)
-  do_normals : list (Q * Q * Q);      (* the normals this run used *)
-  do_half : list Q;
   do_fe : list Z; do_fv : list Z; do_deg : list (Z * Z); do_local : list (Z * list Z);
   do_corners : option (list (Z * Z))
 }.
 
-Record fcase := mkFC { fc_m : fmesh; fc_dets : list det_obs }.
+Record fcase := mkFC {
+  fc_m : fmesh;
+  fc_normals : list (Z * Z * Z * Z * Z * Z);  (* the normals the runs used: (m,e) per component *)
+  fc_angle : list (Z * Z);                    (* the angle sums they used: (m,e) *)
+  fc_dets : list det_obs
+}.
 
-Definition with_run (m : fmesh) (d : det_obs) : fmesh :=
-  mkF (f_nV m) (f_edges m) (f_e2f m) (f_bedges m) (f_hard m) (do_normals d) (f_v2e m) (do_half d).
+Definition the_mesh (c : fcase) : fmesh :=
+  let m := fc_m c in
+  mkF (f_nV m) (f_edges m) (f_e2f m) (f_bedges m) (f_hard m)
+      (map (fun n => let '(a, ea, b, eb, c, ec) := n in (qf a ea, qf b eb, qf c ec)) (fc_normals c))
+      (f_v2e m)
+      (map (fun a => (qf (fst a) (snd a) / pi64)%Q) (fc_angle c)).
 
 Definition corner_ok (m : fmesh) (d : det_obs) (vc : Z * Z) : bool :=
   let '(v, c) := vc in
   let h := half_at m v in let k := o_corner_order (do_opts d) in
   (c =? corner_of h k) || (c =? corner_of (h - do_heps d)%Q k) || (c =? corner_of (h + do_heps d)%Q k).
 
-Definition det_agree (m0 : fmesh) (d : det_obs) : bool :=
-  let m := with_run m0 d in
+Definition det_agree (m : fmesh) (d : det_obs) : bool :=
   let o := do_opts d in
   let fe := do_fe d in
   (* flagged set, through the band (eps = 0: equality with the model proper) *)
@@ -106,4 +119,4 @@ Definition det_agree (m0 : fmesh) (d : det_obs) : bool :=
      end.
 
 Definition check_feat (c : fcase) : bool :=
-  wf_f (fc_m c) && forallb (det_agree (fc_m c)) (fc_dets c).
+  let m := the_mesh c in wf_f m && forallb (det_agree m) (fc_dets c).
